@@ -212,6 +212,7 @@ const preludeDecls = `(set-option :produce-models true)
 (define-fun wrapu8 ((x Int)) Int (mod x 256))
 (define-fun tdiv ((x Int) (y Int)) Int (ite (>= x 0) (ite (> y 0) (div x y) (- (div x (- y)))) (ite (> y 0) (- (div (- x) y)) (div (- x) (- y)))))
 (define-fun tmod ((x Int) (y Int)) Int (- x (* y (tdiv x y))))
+(define-fun bclamp ((x Int)) Int (ite (and (<= 0 x) (<= x 255)) x 0))
 (define-fun imin ((x Int) (y Int)) Int (ite (<= x y) x y))
 (define-fun imax ((x Int) (y Int)) Int (ite (>= x y) x y))
 (define-fun iabs ((x Int)) Int (ite (>= x 0) x (- x)))
@@ -256,6 +257,9 @@ const preludeDecls = `(set-option :produce-models true)
 (define-fun jsonVal ((v Val)) Bool (and (validVal v) (not ((_ is VOther) v)) (=> ((_ is VBig) v) (< 0 (vbig v)))))
 ; rune decoding of strings (abstract UTF-8 decoder, DESIGN §2.7)
 (declare-fun pubval (Int) Int)
+(declare-fun str1 (Int) Str)
+(declare-fun srep (Int Int) Str)
+(declare-fun str_of_bytes ((Array Int Int) Int Int) Str)
 (declare-fun rwidth (Str Int) Int)
 (declare-fun rdecode (Str Int) Int)
 (declare-fun rcount (Str) Int)
@@ -265,13 +269,19 @@ const preludeDecls = `(set-option :produce-models true)
 // preludeAxioms are quantified axioms of the model; each is included in a query only if one
 // of the function symbols in its patterns occurs in the query (relevance filter).
 var preludeAxioms = []string{
+	`(assert (forall ((a (Array Int Int)) (o Int) (n Int) (m Int)) (! (=> (and (<= o m) (< m (+ o n))) (= (sat (str_of_bytes a o n) (- m o)) (bclamp (select a m)))) :pattern ((str_of_bytes a o n) (select a m)))))`,
+	`(assert (forall ((c Int)) (! (and (= (slen (str1 c)) 1) (= (sat (str1 c) 0) (bclamp c))) :pattern ((str1 c)))))`,
+	`(assert (forall ((c Int) (n Int)) (! (=> (<= 0 n) (= (slen (srep c n)) n)) :pattern ((srep c n)))))`,
+	`(assert (forall ((c Int) (n Int) (k Int)) (! (=> (and (<= 0 k) (< k n)) (= (sat (srep c n) k) (bclamp c))) :pattern ((sat (srep c n) k)))))`,
+	`(assert (forall ((a (Array Int Int)) (o Int) (n Int)) (! (=> (<= 0 n) (= (slen (str_of_bytes a o n)) n)) :pattern ((str_of_bytes a o n)))))`,
+	`(assert (forall ((a (Array Int Int)) (o Int) (n Int) (k Int)) (! (=> (and (<= 0 k) (< k n)) (= (sat (str_of_bytes a o n) k) (bclamp (select a (+ o k))))) :pattern ((sat (str_of_bytes a o n) k)))))`,
 	`(assert (forall ((s Str) (i Int) (j Int) (m Int)) (! (=> (and (<= 0 i) (<= i m) (< m j) (<= j (slen s))) (= (sat (ssub s i j) (- m i)) (sat s m))) :pattern ((ssub s i j) (sat s m)))))`,
 	`(assert (forall ((s Str) (a Int) (b Int) (c Int) (d Int)) (! (=> (and (<= 0 a) (<= a b) (<= b (slen s)) (<= 0 c) (<= c d) (<= d (- b a))) (= (ssub (ssub s a b) c d) (ssub s (+ a c) (+ a d)))) :pattern ((ssub (ssub s a b) c d)))))`,
 	// decomposition of a string into decode steps: ridx(s,k) is the byte index of the k-th step
 	`(assert (forall ((s Str)) (! (and (<= 0 (rcount s)) (<= (rcount s) (slen s)) (= (ridx s 0) 0) (= (ridx s (rcount s)) (slen s)) (=> (< 0 (slen s)) (< 0 (rcount s)))) :pattern ((rcount s)))))`,
 	`(assert (forall ((s Str) (k Int)) (! (=> (and (<= 0 k) (< k (rcount s))) (and (<= 0 (ridx s k)) (< (ridx s k) (slen s)) (= (ridx s (+ k 1)) (+ (ridx s k) (rwidth s (ridx s k)))))) :pattern ((ridx s k)))))`,
 	`(assert (forall ((s Str) (k Int) (j Int)) (! (=> (and (<= 0 k) (< k j) (<= j (rcount s))) (< (ridx s k) (ridx s j))) :pattern ((ridx s k) (ridx s j)))))`,
-	`(assert (forall ((s Str)) (! (and (<= 0 (slen s)) (< (slen s) 72057594037927936)) :pattern ((slen s)))))`,
+	`(assert (forall ((s Str)) (! (<= 0 (slen s)) :pattern ((slen s)))))`,
 	`(assert (forall ((s Str) (i Int)) (! (and (<= 0 (sat s i)) (<= (sat s i) 255)) :pattern ((sat s i)))))`,
 	`(assert (forall ((s Str) (i Int) (j Int)) (! (=> (and (<= 0 i) (<= i j) (<= j (slen s))) (= (slen (ssub s i j)) (- j i))) :pattern ((ssub s i j)))))`,
 	`(assert (forall ((s Str) (i Int) (j Int) (k Int)) (! (=> (and (<= 0 i) (<= i j) (<= j (slen s)) (<= 0 k) (< k (- j i))) (= (sat (ssub s i j) k) (sat s (+ i k)))) :pattern ((sat (ssub s i j) k)))))`,
